@@ -29,7 +29,8 @@ def cases(draw, tier='quick'):
         # region graph with three levels where a region has two parents without a common ancestor: (a,b,d),(a,b,e),(b,c)
         a, b, c, d, e = list(draw(st.permutations(attrs)))
         meas = []
-        for proj in ([a, b, d], [a, b, e], [b, c]):
+        triples = draw(st.sampled_from([([a, b, d], [a, b, e], [b, c]), ([a, b, c], [b, c, d], [c, d, e]), ([a, b, c], [b, c, d], [a, c, e])]))
+        for proj in triples:
             proj = list(draw(st.permutations(proj)))
             meas.append({'proj': proj, 'q': {'kind': 'identity', 'rows': 1, 'seed': 0, 'c': 1.0}, 'noise': draw(st.sampled_from([1.0, 5.0, 10.0])),
                          'yseed': draw(st.integers(0, 2**31 - 1)), 'noise_mult': draw(st.sampled_from([1.0, 3.0]))})
@@ -46,7 +47,7 @@ def cases(draw, tier='quick'):
                              'yseed': draw(st.integers(0, 2**31 - 1)), 'noise_mult': draw(st.sampled_from([0.0, 1.0, 3.0]))})
     if mode == 'nested3':
         return {'mode': 'valid', 'domain': dom, 'meas': meas, 'data_seed': draw(st.integers(0, 2**31 - 1)),
-                'total': draw(st.sampled_from([100.0, 1000.0])), 'true_total': 1000.0, 'oracle': 'convex',
+                'total': draw(st.sampled_from([100.0, 1000.0])), 'true_total': 1000.0, 'oracle': draw(st.sampled_from(['convex', 'convex', 'approx'])),
                 'iters': draw(st.sampled_from([20, 100, 300])), 'inner_iters': draw(st.sampled_from([1, 3]))}
     return {'mode': mode, 'domain': dom, 'meas': meas, 'data_seed': draw(st.integers(0, 2**31 - 1)),
             'total': draw(st.sampled_from([1.0, 10, 100.0, 1000.0, None])) if mode == 'valid' else draw(st.sampled_from([1.0, 10, 100.0, None])), 'true_total': draw(st.sampled_from([1.0, 20.0, 500.0])),
